@@ -52,12 +52,13 @@ impl World {
                     );
                 }
                 let h = b.hash;
+                let t = b.block.header.time as u64;
+                let plain = b.mutation == crate::net::Mutation::None;
                 self.log.write(&h);
-                // interleaving bookkeeping for open sessions
-                for s in self.sessions.values_mut() {
-                    if !s.done {
-                        s.interleaved += 1;
-                    }
+                // real time passes while blocks are mined: the clock never lags an honest block
+                if plain && t > self.now {
+                    self.stats.simulated_seconds += t - self.now;
+                    self.now = t;
                 }
                 Ok(true)
             }
@@ -136,6 +137,21 @@ impl World {
 
     fn heartbeat_trap(&mut self, msg: String) -> Violation {
         self.heartbeat_traps += 1;
+        // Specific, recognisable cause: the anchor finished ingesting but no child is stable any
+        // more because the threshold was raised while its ingestion was paused.
+        if let Some(t0) = self.threshold_at_ingest_start {
+            let verdict = model::stability_verdict(&self.tree, self.threshold, self.testnet_like());
+            if self.threshold > t0 && verdict.allowed.is_empty() {
+                return violation(
+                    "C03",
+                    "trap-pop-after-threshold-raise",
+                    format!(
+                        "stability_threshold raised from {t0} to {} while the anchor's ingestion was paused; when ingestion completed no child was stable and the heartbeat trapped: {msg}",
+                        self.threshold
+                    ),
+                );
+            }
+        }
         // A trap of the heartbeat is itself the violation (C10: arbitrary replies never trap;
         // C13: fetching survives any reply sequence; C20: no "must exist" failure).
         let prop = if self.is_active("C10") {
@@ -416,6 +432,7 @@ impl World {
                 self.stats.probe("anchor_advance");
             }
             self.ingest_rounds = 0;
+            self.threshold_at_ingest_start = None;
         }
 
         // ---- mid-ingestion (C03 ii, C08 c) ----
@@ -440,6 +457,9 @@ impl World {
                         "ingestion of the anchor began although no child is stable".into(),
                     ));
                 }
+            }
+            if self.ingest_rounds == 0 {
+                self.threshold_at_ingest_start = Some(threshold_at_start);
             }
             self.ingest_rounds += 1;
             self.stats.probe("ingestion_paused");
@@ -531,6 +551,14 @@ impl World {
                 "response-not-processed",
                 "a heartbeat with a complete response stored and nothing to ingest did not process it".into(),
             ));
+        }
+
+        if before.hashes != after.hashes || before.stable_height != after.stable_height {
+            for s in self.sessions.values_mut() {
+                if !s.done {
+                    s.interleaved += 1;
+                }
+            }
         }
 
         // ---- unstable set equality (C10 / base consistency) ----
@@ -696,7 +724,7 @@ impl World {
             .net
             .blocks
             .values()
-            .filter(|b| b.mutation == crate::net::Mutation::None || matches!(b.mutation, crate::net::Mutation::TimeFuture(_)))
+            .filter(|b| b.is_honest())
             .map(|b| b.block.header.time as u64)
             .max()
             .unwrap_or(0);
@@ -715,7 +743,7 @@ impl World {
             self.run_deliver(0, &honest, 0)?;
         }
         let valid_blocks = self.net.blocks.len() as u64;
-        let bound = 6 * valid_blocks + 40;
+        let bound = 6 * valid_blocks + 40 + 2 * 256; // + outstanding pages of a paged reply
         let mut idle_rounds = 0;
         let mut rounds = 0u64;
         loop {
@@ -729,20 +757,43 @@ impl World {
             }
             let before = observe();
             let set_before = self.tree.nodes.len();
+            let ann_before = self.announced.len();
             self.now += 1;
             self.run_heartbeat(0)?;
             while !self.tasks.is_empty() {
                 self.run_deliver(0, &honest, 0)?;
             }
             let after = observe();
-            let progressed = before != after || set_before != self.tree.nodes.len();
+            let work_stored = match &after.resp {
+                RespKind::None => false,
+                RespKind::Partial { .. } => true,
+                RespKind::Complete { blocks, next } => !blocks.is_empty() || !next.is_empty(),
+            };
+            let progressed = before.hashes != after.hashes
+                || before.stable_height != after.stable_height
+                || after.ingesting.is_some()
+                || set_before != self.tree.nodes.len()
+                || ann_before != self.announced.len()
+                || work_stored;
+            if std::env::var("BTCSIM_DEBUG").is_ok() {
+                eprintln!(
+                    "quiesce round {rounds}: tree {} anchor #{} stable {} ingesting {} resp {} pending {} progressed {progressed} now {}",
+                    self.tree.nodes.len(),
+                    self.tree.anchor,
+                    after.stable_height,
+                    after.ingesting.is_some(),
+                    short_resp(&after.resp),
+                    short_pending(&self.pending),
+                    self.now
+                );
+            }
             if progressed {
                 idle_rounds = 0;
             } else {
                 idle_rounds += 1;
             }
-            // idle: a heartbeat that fetched an empty answer and changed nothing, twice in a row
-            if idle_rounds >= 3 {
+            // idle: several heartbeats in a row that fetched nothing new and changed nothing
+            if idle_rounds >= 4 {
                 break;
             }
         }
@@ -771,14 +822,7 @@ impl World {
                     continue;
                 }
                 seen.insert(c);
-                let b = &self.net.blocks[&c];
-                if b.mutation != crate::net::Mutation::None || b.ledger.is_none() {
-                    continue;
-                }
-                // header must be valid at the current time
-                let chain = self.net.headers_to(x);
-                let v = crate::rules::validate_header(&chain, &b.block.header, self.now, self.network, !self.synthetic_pow);
-                if v != crate::rules::HeaderVerdict::Valid {
+                if !self.block_valid_now(c) {
                     continue;
                 }
                 if !self.tree.contains(c) {
